@@ -561,6 +561,10 @@ func runLocal(kv map[string]string) string {
 		return runGuns(kv)
 	case "isolate":
 		return runIsolate(kv)
+	case "ammo":
+		return runAmmo(kv)
+	case "retain":
+		return runRetain(kv)
 	}
 	return "ENV unknown mode"
 }
@@ -592,7 +596,7 @@ func childBinary() (string, string) {
 func run(input string) string {
 	kv := drv.KV(input)
 	switch kv["mode"] {
-	case "alias", "guns", "handover", "isolate":
+	case "alias", "guns", "handover", "isolate", "ammo", "retain":
 		return runDeterministic(input, kv)
 	case "race", "hammer":
 		return runRace(input)
@@ -620,6 +624,25 @@ func class(input, obs string) string {
 			return ""
 		}
 		return "isolate/" + kv["kind"]
+	}
+	if kv["mode"] == "retain" {
+		if !strings.HasPrefix(obs, "calls=") {
+			return ""
+		}
+		return "retain/" + kv["obj"]
+	}
+	if kv["mode"] == "ammo" {
+		if !strings.HasPrefix(obs, "served=yes") {
+			return ""
+		}
+		c := "ammo/" + kv["kind"]
+		if kv["pre"] == "1" || kv["arr"] == "1" {
+			c += "/reuse"
+		}
+		if kv["mw"] != "" {
+			c += "/mw"
+		}
+		return c
 	}
 	if kv["mode"] == "handover" {
 		if !strings.Contains(obs, "reports=") || strings.Contains(obs, "reports=0 ") {
@@ -780,6 +803,84 @@ func isolateCase(r *rand.Rand) string {
 	return fmt.Sprintf("mode=isolate kind=httpscen n=%d order=%s toks=%s chains=%s", n, order, strings.Join(toks, ";"), strings.Join(chains, ";"))
 }
 
+// httpAmmoOpts: a random configuration of an http provider — preload / JSON array (decoded ammo delivered again on
+// every pass), request middlewares, which headers the ammo file and the `headers` option give (with / without Host, none
+// at all, a Date header of the ammo's own, one key with several values), number of ammo in the file.
+func httpAmmoOpts(r *rand.Rand, k string, reuse bool) string {
+	c := ""
+	if reuse {
+		if k == "httpjson" && r.Intn(2) == 0 {
+			c += " arr=1"
+		} else {
+			c += " pre=1"
+		}
+	}
+	mw := pick(r, []string{"date", "date", "date", "datex", "date2", "datem", ""})
+	if mw != "" {
+		c += " mw=" + mw
+	}
+	hdr := pick(r, []string{"", "nohost", "none", "date"})
+	if hdr != "" {
+		c += " hdr=" + hdr
+	}
+	ch := pick(r, []string{"", "nohost", "none", "multi"})
+	if mw == "datem" {
+		ch = "multi"
+	}
+	if ch != "" {
+		c += " chdr=" + ch
+	}
+	if hdr != "" || strings.Contains(c, "arr=1") || r.Intn(2) == 0 {
+		c += fmt.Sprintf(" am=%d", 1+r.Intn(4))
+	}
+	return c
+}
+
+// ammoOrder: every instance acquires once, then random turns; half of the time instance 0 never gets another turn (it
+// holds its first ammo through everything the others do)
+func ammoOrder(r *rand.Rand, n int) string {
+	steps := n + 3 + r.Intn(7)
+	order := make([]byte, steps)
+	holder := r.Intn(2) == 0
+	for i := range order {
+		switch {
+		case i < n:
+			order[i] = byte('0' + i)
+		case holder:
+			order[i] = byte('1' + r.Intn(n-1))
+		default:
+			order[i] = byte('0' + r.Intn(n))
+		}
+	}
+	return string(order)
+}
+
+// ammoCase: the provider's side of a pool on one goroutine (mode=ammo).
+func ammoCase(r *rand.Rand) string {
+	n := 2 + r.Intn(3)
+	if r.Intn(6) == 0 {
+		return fmt.Sprintf("mode=ammo kind=%s n=%d order=%s", pick(r, []string{"grpcjson", "httpscen", "grpcscen"}), n, ammoOrder(r, n))
+	}
+	k := pick(r, httpKinds)
+	return fmt.Sprintf("mode=ammo kind=%s n=%d order=%s%s", k, n, ammoOrder(r, n), httpAmmoOpts(r, k, r.Intn(3) > 0))
+}
+
+// ammoMatrix: every http kind with a provider that delivers its decoded ammo again (preload; JSON array), middlewares,
+// fewer ammo than instances, headers without Host — and the plain configuration of every kind
+func ammoMatrix() []string {
+	var out []string
+	for _, k := range httpKinds {
+		out = append(out, "mode=ammo kind="+k+" n=2 order=010101")
+		out = append(out, "mode=ammo kind="+k+" n=3 order=01212121 pre=1 mw=date hdr=nohost chdr=nohost am=2")
+		out = append(out, "mode=ammo kind="+k+" n=2 order=0101011 pre=1 mw=date2 hdr=none chdr=multi am=1")
+	}
+	out = append(out, "mode=ammo kind=uri n=2 order=010101 mw=datem chdr=multi", "mode=ammo kind=uripost n=3 order=0121212 pre=1 mw=datem hdr=nohost chdr=multi am=2")
+	out = append(out, "mode=ammo kind=httpjson n=3 order=012012012 arr=1 mw=date hdr=date chdr=none am=2")
+	out = append(out, "mode=ammo kind=httpjson n=2 order=01111111 arr=1 mw=datex hdr=nohost chdr=nohost am=3")
+	out = append(out, "mode=ammo kind=grpcjson n=3 order=0120120120", "mode=ammo kind=httpscen n=3 order=0121212121", "mode=ammo kind=grpcscen n=4 order=01231231231")
+	return out
+}
+
 // raceVariant: one whole-pool case with a random supported variant of the kind.
 func raceVariant(r *rand.Rand, k string, n, shots int) string {
 	c := fmt.Sprintf("mode=race kind=%s n=%d shots=%d", k, n, shots)
@@ -787,11 +888,13 @@ func raceVariant(r *rand.Rand, k string, n, shots int) string {
 	case "uri", "uripost", "raw", "httpjson":
 		switch r.Intn(4) {
 		case 0:
-			c += " pre=1"
+			c += httpAmmoOpts(r, k, true)
 		case 1:
 			if k == "uri" {
 				c += fmt.Sprintf(" sc=%d", 1+r.Intn(3))
 			}
+		case 2:
+			c += httpAmmoOpts(r, k, false)
 		}
 	case "grpcjson":
 		if r.Intn(2) == 0 {
@@ -818,6 +921,13 @@ func genPlain(r *rand.Rand, tier string) []string {
 	for i := 0; i < 6; i++ {
 		out = append(out, isolateCase(r))
 	}
+	out = append(out, ammoMatrix()...)
+	for i := 0; i < 12; i++ {
+		out = append(out, ammoCase(r))
+	}
+	for _, o := range retainObjs {
+		out = append(out, fmt.Sprintf("mode=retain obj=%s n=%d calls=%d", o, 2+r.Intn(3), 6+r.Intn(20)))
+	}
 	for _, k := range []string{"uri", "httpscen", "grpcjson", "grpcscen"} {
 		for _, n := range []int{1, 2, 4, 8} {
 			out = append(out, fmt.Sprintf("mode=guns kind=%s n=%d", k, n))
@@ -836,7 +946,10 @@ func genPlain(r *rand.Rand, tier string) []string {
 		}
 		switch k {
 		case "uri", "httpjson":
-			out = append(out, raceCase(k, 8, 200, 200, " pre=1"))
+			// a provider that delivers its decoded ammo again on every pass, with request middlewares
+			out = append(out, raceCase(k, 8, 200, 200, httpAmmoOpts(r, k, true)))
+		case "uripost", "raw":
+			out = append(out, raceCase(k, 4+r.Intn(8), 150, 200, " pre=1 mw=date hdr=none chdr=nohost am=2"))
 		case "grpcjson":
 			out = append(out, raceCase(k, 8, 200, 200, " sc=2"))
 		case "httpscen", "grpcscen":
@@ -851,6 +964,14 @@ func genPlain(r *rand.Rand, tier string) []string {
 		out = append(out, handoverExhaustive()...)
 		for i := 0; i < 60; i++ {
 			out = append(out, isolateCase(r))
+		}
+		for i := 0; i < 150; i++ {
+			out = append(out, ammoCase(r))
+		}
+		for i := 0; i < 6; i++ {
+			for _, o := range retainObjs {
+				out = append(out, fmt.Sprintf("mode=retain obj=%s n=%d calls=%d", o, 1+r.Intn(5), 2+r.Intn(60)))
+			}
 		}
 		for i := 0; i < 12; i++ {
 			for _, o := range hammerObjs {
@@ -895,6 +1016,9 @@ func genRace(r *rand.Rand, tier string) []string {
 	for i := 0; i < 3; i++ {
 		out = append(out, isolateCase(r))
 	}
+	for i := 0; i < 8; i++ {
+		out = append(out, ammoCase(r))
+	}
 	for _, o := range hammerObjs {
 		out = append(out, fmt.Sprintf("mode=hammer obj=%s n=%d calls=%d", o, 2+r.Intn(5), 2000+r.Intn(2000)))
 	}
@@ -909,6 +1033,9 @@ func genRace(r *rand.Rand, tier string) []string {
 		out = append(out, handoverCases(r, 6)...)
 		for i := 0; i < 30; i++ {
 			out = append(out, isolateCase(r))
+		}
+		for i := 0; i < 60; i++ {
+			out = append(out, ammoCase(r))
 		}
 		for i := 0; i < 10; i++ {
 			for _, o := range hammerObjs {
